@@ -55,6 +55,43 @@ def run(chk):
     elif not close(np.asarray(md2.means)[1], np.asarray(md1.means)[1] + bd, rtol=1e-9):
         chk.fail("ML training with a numerically starved component (count below the update threshold) is not shift-equivariant: its mean becomes sum_px / threshold",
                  {"X": hexlist(Xd), "b": hexlist(bd), "mu": hexlist(mud), "means": hexlist(md1.means), "means_shifted_run": hexlist(md2.means)}, sig=D15)
+    # ---- MAP adaptation (Reynolds and fixed-ratio) with a raised count threshold and a component whose count lies below it (0 < n < threshold):
+    #      that component keeps the prior mean, which follows a shift of the features like everything else
+    for j in range(3 if chk.tier == "quick" else 60):
+        g = gen.nprng(r)
+        Dm = r.choice([1, 2])
+        Xm = g.normal(size=(12, Dm))
+        wm = np.array([0.999, 0.001])
+        mum = np.vstack([np.zeros(Dm), 0.3 * np.ones(Dm)])
+        varm = np.ones((2, Dm))
+        bm = g.uniform(20.0, 200.0, size=Dm) * g.choice([-1.0, 1.0], size=Dm)
+        thr_n = r.choice([0.5, 2.0])
+        rel_m = r.choice([4.0, 16.0, None])
+        out = []
+        for shift in (np.zeros(Dm), bm):
+            mm, _ = gt.build_machine(dict(w=None, mu=None, var=None, thr=1e-6 * np.ones(Dm), sw=(True, False, False), eps=thr_n, cap=1, cthr=None,
+                                          map=dict(relevance=rel_m, alpha=0.4, prior=(wm, mum + shift, varm, 1e-6 * np.ones(Dm)))))
+            st_ = mm.ubm.acc_stats(Xm + shift)
+            gt.run_fit(mm, Xm + shift)
+            out.append((np.asarray(mm.means, dtype=float), np.asarray(st_.n, dtype=float)))
+        chk.count(1, key=("map-count-below-raised-threshold", rel_m is not None))
+        n_small = float(out[0][1][1])
+        if 0.0 < n_small < thr_n and not close(out[1][0], out[0][0] + bm, rtol=1e-9, atol=1e-9):
+            chk.fail("MAP mean adaptation (%s) with mean_var_update_threshold=%g: a component with count %.3g below the threshold does not follow a shift of the features (its mean moves by %s instead of %s)"
+                     % ("Reynolds, relevance %g" % rel_m if rel_m is not None else "fixed ratio 0.4", thr_n, n_small, (out[1][0] - out[0][0])[1].tolist(), bm.tolist()),
+                     {"X": hexlist(Xm), "b": hexlist(bm), "prior_weights": hexlist(wm), "prior_means": hexlist(mum), "threshold": thr_n, "relevance": rel_m})
+    # ---- k-means under the default stopping threshold in very small units (exact power-of-two rescaling: the trajectories are the same bit for bit)
+    for j in range(3 if chk.tier == "quick" else 40):
+        g = gen.nprng(r)
+        Xs = np.vstack([g.normal(size=(15, 2)) * 1.5 + c_ for c_ in ([0.0, 0.0], [3.0, 0.5], [1.0, 3.0])])
+        init_s = Xs[g.choice(len(Xs), size=3, replace=False)]
+        e1, ne1, _ = kt.run_kfit(init_s, Xs, None, cap=30, cthr=1e-5)
+        pw = 2.0 ** -r.choice([28, 35, 45])
+        e2, ne2, _ = kt.run_kfit(init_s * pw, Xs * pw, None, cap=30, cthr=1e-5)
+        chk.count(1, key=("kmeans-default-threshold-tiny-units", ne1))
+        if not (ne1 == ne2 and close(np.asarray(e2.centroids_) / pw, np.asarray(e1.centroids_), rtol=1e-9, atol=1e-12)):
+            chk.fail("k-means with the default stopping threshold: the data in units 2**%d times larger (values scaled by %.3g) stop after %d iterations instead of %d and give other centroids"
+                     % (int(round(-np.log2(pw))), pw, ne2, ne1), {"X": hexlist(Xs), "init": hexlist(init_s), "scale": pw, "iterations": [ne1, ne2]})
     for i in range(n_cases):
         w, mu, var, s, X = gt.gen_training(r, N=r.choice([9, 14]))
         C, D = mu.shape
